@@ -6,7 +6,13 @@ fn main() {
     hx_common::quiet_panics();
     let n: u64 = std::env::args().nth(1).and_then(|s| s.parse().ok()).unwrap_or(200);
     let seed: u64 = std::env::var("VERIF_SEED").ok().and_then(|s| s.parse().ok()).unwrap_or(1);
-    let o = GenOpts::default();
+    let mut o = GenOpts::default();
+    let envn = |k: &str| std::env::var(k).ok().and_then(|s| s.parse::<usize>().ok());
+    if let Some(v) = envn("EXP_POINTER") { o.pct_pointer = v; }
+    if let Some(v) = envn("EXP_PVARS") { o.pointer_variables = v != 0; }
+    if let Some(v) = envn("EXP_VIO") { o.pct_var_in_object = v; }
+    if let Some(v) = envn("EXP_LOADABLE") { o.pct_loadable = v; }
+    if let Some(v) = envn("EXP_UPD") { o.pct_updatable = v; }
     let mut hist: BTreeMap<String, usize> = BTreeMap::new();
     let mut ok = 0;
     let mut shown: BTreeMap<String, usize> = BTreeMap::new();
@@ -21,6 +27,14 @@ fn main() {
             let c = shown.entry(key.clone()).or_default();
             if *c < 1 && std::env::var("SHOW").is_ok() {
                 *c += 1;
+                let p = if std::env::var("SHRINK").is_ok() {
+                    let want = key.clone();
+                    hx_projgen::shrink::shrink(&p, 3000, |q| {
+                        let o = compile_project(q);
+                        let k = match &o.result { CompileResult::Panic(m) => format!("panic: {}", &m[..m.len().min(90)]), x => x.summary() };
+                        k == want
+                    })
+                } else { p.clone() };
                 println!("=== case {i}: {key}");
                 if let CompileResult::Diagnostics(ds) = &out.result { for d in ds.iter().take(2) { println!("{}", d.rendered.clone().unwrap_or(d.message.clone())); } }
                 if let CompileResult::Panic(m) = &out.result { println!("{m}"); }
